@@ -57,11 +57,13 @@ pub fn order_rules() -> Vec<Rewrite> { vec![
         "(order ?keys ?child)" => "?child"
         if is_orderby("?keys", "?child")
     ),
+    // the merge join executor handles inner and outer joins without a residual condition
     rw!("merge-join";
-        "(hashjoin ?type ?cond ?lkey ?rkey ?left ?right)" =>
-        "(mergejoin ?type ?cond ?lkey ?rkey ?left ?right)"
+        "(hashjoin ?type true ?lkey ?rkey ?left ?right)" =>
+        "(mergejoin ?type true ?lkey ?rkey ?left ?right)"
         if is_orderby("?lkey", "?left")
         if is_orderby("?rkey", "?right")
+        if is_inner_or_outer_join("?type")
     ),
     rw!("sort-agg";
         "(hashagg ?keys ?aggs ?child)" =>
@@ -69,6 +71,19 @@ pub fn order_rules() -> Vec<Rewrite> { vec![
         if is_orderby("?keys", "?child")
     ),
 ]}
+
+/// Returns true if the join type is inner, left / right / full outer (not semi or anti).
+fn is_inner_or_outer_join(ty: &str) -> impl Fn(&mut EGraph, Id, &Subst) -> bool {
+    let ty = var(ty);
+    move |egraph, _, subst| {
+        egraph[subst[ty]].nodes.iter().any(|e| {
+            matches!(
+                e,
+                Expr::Inner | Expr::LeftOuter | Expr::RightOuter | Expr::FullOuter
+            )
+        })
+    }
+}
 
 /// Returns true if the plan is ordered by the keys.
 fn is_orderby(keys: &str, plan: &str) -> impl Fn(&mut EGraph, Id, &Subst) -> bool {
